@@ -4,11 +4,12 @@ From Coq Require Import ZArith List Bool Lia Arith.
 Require Import Spec.Params Spec.Field Spec.Curve Spec.Bytes Spec.Sha256.
 Require Import Model.Base Model.Keys Model.Schnorr Model.Musig Model.MusigNonceSM.
 Require Import Proofs.BytesLemmas.
+Require Spec.Bip327.
 Import ListNotations.
 Local Open Scope Z_scope.
 
 (* hashing and curve arithmetic never need to be unfolded here *)
-Local Opaque tagged_hash sha256 pmul padd.
+Local Opaque tagged_hash sha256 pmul padd nonce_fn_musig keyaggcoef.
 
 (* ------------------------------------------------------------------ list helpers *)
 Lemma set_nth_length {A} k (v : A) l : length (set_nth k v l) = length l.
@@ -40,6 +41,17 @@ Proof.
     + intros Hi. apply In_set_nth in Hi. destruct Hi; [subst; tauto|tauto].
     + apply IHl; auto.
 Qed.
+
+Lemma skipn_exact {A} (a b : list A) k : length a = k -> skipn k (a ++ b) = b.
+Proof. intros <-. induction a; simpl; auto. Qed.
+Lemma firstn_exact {A} (a b : list A) k : length a = k -> firstn k (a ++ b) = a.
+Proof. intros <-. induction a; simpl; auto. f_equal. auto. Qed.
+
+(* from here on [simpl] must not unfold firstn/skipn/slice at numeral arguments *)
+Local Arguments firstn : simpl never.
+Local Arguments skipn : simpl never.
+Local Arguments be_enc : simpl never.
+Local Arguments be_val : simpl never.
 
 (* ------------------------------------------------------------------ object facts *)
 Lemma secnonce_load_zeros P : secnonce_load P (zeros 132) = None.
@@ -268,14 +280,617 @@ Proof.
   unfold nonce_gen_internal. destruct wp; simpl; [|discriminate]. destruct pko as [o|]; [|discriminate].
   destruct (match c with Some c0 => _ | None => _ end); [|discriminate].
   destruct (pk_load o) as [pk'|] eqn:E; [|discriminate].
-  destruct (nonce_fn_musig P inp msg sk (ser33 pk') o0 ex). intros H. inversion H; subst. eauto.
+  destruct (nonce_fn_musig P inp msg sk (ser33 pk') o0 ex). intros H. injection H as _ _ _ H4. subst. eauto.
 Qed.
+
 
 Lemma skipn_68_secnonce k1 k2 pk : skipn 68 (secnonce_save k1 k2 pk) = pk_obj pk.
 Proof.
   unfold secnonce_save, sc_to_b32.
-  assert (L : length (magic_secnonce ++ be_enc 32 k1 ++ be_enc 32 k2) = 68%nat)
-    by (rewrite !app_length, !be_enc_length; reflexivity).
-  rewrite !app_assoc. rewrite <- (app_assoc magic_secnonce). rewrite <- L at 1. apply skipn_app_exact || idtac.
-Abort.
+  replace (magic_secnonce ++ be_enc 32 k1 ++ be_enc 32 k2 ++ pk_obj pk)
+    with ((magic_secnonce ++ be_enc 32 k1 ++ be_enc 32 k2) ++ pk_obj pk) by (rewrite <- !app_assoc; reflexivity).
+  apply skipn_exact. rewrite !app_length, !be_enc_length. reflexivity.
+Qed.
+
+(* a canonical public-key object (64 bytes in range) is stored back unchanged *)
+Lemma pk_obj_of_load o pk : length o = 64%nat -> bytes_okP o -> pk_load o = Some pk -> pk_obj pk = o.
+Proof.
+  intros L B H. unfold pk_load in H. destruct (be_val (firstn 32 o) =? 0); [discriminate|].
+  assert (E : pk = Some (be_val (firstn 32 o), be_val (skipn 32 o))) by congruence.
+  rewrite E. clear H E. unfold pk_obj, fe_to_b32.
+  assert (L1 : length (firstn 32 o) = 32%nat) by (rewrite firstn_length; lia).
+  assert (L2 : length (skipn 32 o) = 32%nat) by (rewrite skipn_length; lia).
+  assert (B1 : bytes_okP (firstn 32 o)).
+  { apply Forall_forall; intros x Hx. eapply (proj1 (Forall_forall _ _) B). rewrite <- (firstn_skipn 32 o). apply in_or_app; auto. }
+  assert (B2 : bytes_okP (skipn 32 o)).
+  { apply Forall_forall; intros x Hx. eapply (proj1 (Forall_forall _ _) B). rewrite <- (firstn_skipn 32 o). apply in_or_app; auto. }
+  pose proof (be_enc_val _ B1) as E1. rewrite L1 in E1.
+  pose proof (be_enc_val _ B2) as E2. rewrite L2 in E2.
+  rewrite E1, E2. apply firstn_skipn.
+Qed.
+
+Lemma nonce_gen_sec_contract before wp rand sk pko msg c ex :
+  let o := nonce_gen_sec P true before wp rand sk pko msg c ex in
+  (forall r, rand = Some r -> is_zero_bytes r = true -> ng_r o = false /\ ng_i o = 0 /\ ng_sec o = zeros 132) /\
+  (ng_r o = true -> ng_rand o = Some (zeros 32)) /\
+  (ng_r o = false -> ng_sec o = zeros 132 /\ ng_rand o = rand) /\
+  (ng_r o = true -> exists k1 k2 pk obj, pko = Some obj /\ pk_load obj = Some pk /\
+                    ng_sec o = secnonce_save k1 k2 pk /\ skipn 68 (ng_sec o) = pk_obj pk).
+Proof.
+  unfold nonce_gen_sec. simpl. destruct rand as [r|]; simpl.
+  2: { repeat split; try discriminate; auto. }
+  destruct (is_zero_bytes r) eqn:Z; simpl.
+  { repeat split; try discriminate; auto. }
+  remember (nonce_gen_internal P wp r sk pko msg c ex) as res.
+  split; [|split; [|split]].
+  - intros r1 H1 H2. inversion H1; subst. congruence.
+  - intros ->. reflexivity.
+  - intros H. split; [apply ng_secnonce_fail; auto|rewrite H; reflexivity].
+  - intros H. destruct res as [z|ok k1 k2 pk]; simpl in H; [discriminate|]. subst ok.
+    symmetry in Heqres. destruct (nonce_gen_internal_done _ _ _ _ _ _ _ _ _ _ _ Heqres) as [obj [E1 E2]].
+    exists k1, k2, pk, obj. simpl. repeat split; auto; try apply skipn_68_secnonce.
+Qed.
+
+Lemma nonce_gen_counter_sec_contract before wp cnt kp msg c ex :
+  let o := nonce_gen_counter_sec P true before wp cnt kp msg c ex in
+  (ng_r o = false -> ng_sec o = zeros 132) /\
+  (ng_r o = true -> exists k1 k2 pk kpb, kp = Some kpb /\ pk_load (skipn 32 kpb) = Some pk /\
+                    seckey_of_b32 P (firstn 32 kpb) <> None /\
+                    ng_sec o = secnonce_save k1 k2 pk /\ skipn 68 (ng_sec o) = pk_obj pk).
+Proof.
+  unfold nonce_gen_counter_sec. simpl. destruct kp as [kpb|]; simpl.
+  2: { split; [auto|discriminate]. }
+  remember (nonce_gen_internal P wp (counter_buf cnt) (Some (firstn 32 kpb)) (Some (skipn 32 kpb)) msg c ex) as res.
+  split.
+  - apply ng_secnonce_fail.
+  - intros H. destruct res as [z|ok k1 k2 pk]; simpl in H; [discriminate|]. subst ok.
+    symmetry in Heqres. destruct (nonce_gen_internal_done _ _ _ _ _ _ _ _ _ _ _ Heqres) as [obj [E1 E2]].
+    inversion E1; subst obj.
+    exists k1, k2, pk, kpb. simpl. repeat split; auto; try apply skipn_68_secnonce.
+    revert Heqres. unfold nonce_gen_internal. destruct wp; simpl; [|discriminate].
+    destruct (seckey_of_b32 P (firstn 32 kpb)); [discriminate|].
+    destruct (match c with Some c0 => _ | None => _ end); [|discriminate].
+    rewrite E2. destruct (nonce_fn_musig P (counter_buf cnt) msg (Some (firstn 32 kpb)) (ser33 pk) o ex). discriminate.
+Qed.
+
+(* step level *)
+Lemma step_gen_contract s k wp ri sk pko msg c ex :
+  (k < length (slots s))%nat ->
+  let r := step P s (OGen (Some k) wp ri sk pko msg c ex) in
+  (o_ret (snd r) <> 1 -> slot_of (fst r) k = Some (zeros 132)) /\
+  (forall rb, get_rand s ri = Some rb -> is_zero_bytes rb = true ->
+        o_ret (snd r) = 0 /\ o_ill (snd r) = 0 /\ slot_of (fst r) k = Some (zeros 132)) /\
+  (o_ret (snd r) = 1 -> forall i, ri = Some i -> nth_error (rands (fst r)) i = Some (zeros 32)) /\
+  (o_ret (snd r) = 1 -> exists k1 k2 pk obj, pko = Some obj /\ pk_load obj = Some pk /\
+        slot_of (fst r) k = Some (secnonce_save k1 k2 pk) /\ skipn 68 (secnonce_save k1 k2 pk) = pk_obj pk).
+Proof.
+  intros Hk. unfold step, get_slot, slot_of.
+  destruct (nth_error (slots s) k) as [before|] eqn:E; [|apply nth_error_None in E; lia].
+  pose proof (nonce_gen_sec_contract before wp (get_rand s ri) sk pko msg c ex) as C.
+  remember (nonce_gen_sec P true before wp (get_rand s ri) sk pko msg c ex) as o.
+  simpl in C. destruct C as [C1 [C2 [C3 C4]]]. simpl.
+  split; [|split; [|split]].
+  - intros H. rewrite nth_error_set_nth_eq by auto. f_equal. apply C3. destruct (ng_r o); simpl in H; congruence.
+  - intros rb H H0. destruct (C1 rb H H0) as [E1 [E2 E3]]. rewrite E1, E2, E3.
+    rewrite nth_error_set_nth_eq by auto. auto.
+  - intros H i ->. assert (T : ng_r o = true) by (destruct (ng_r o); simpl in H; congruence).
+    specialize (C2 T). unfold get_rand in *. destruct (nth_error (rands s) i) eqn:Er.
+    + rewrite C2. simpl. apply nth_error_set_nth_eq. eapply nth_error_lt; eauto.
+    + exfalso. subst o. unfold nonce_gen_sec in T. simpl in T. discriminate.
+  - intros H. assert (T : ng_r o = true) by (destruct (ng_r o); simpl in H; congruence).
+    destruct (C4 T) as [k1 [k2 [pk [obj [A1 [A2 [A3 A4]]]]]]].
+    exists k1, k2, pk, obj. repeat split; auto; try apply skipn_68_secnonce.
+    rewrite nth_error_set_nth_eq by auto. congruence.
+Qed.
 End C13.
+
+(* ================================================================== Part 2: C12 *)
+(* ---- the full 64-bit counter enters the hash *)
+Lemma counter_buf_inj c c' : 0 <= c < 2 ^ 64 -> 0 <= c' < 2 ^ 64 -> counter_buf c = counter_buf c' -> c = c'.
+Proof.
+  unfold counter_buf. intros H1 H2 H. apply app_inv_tail in H.
+  apply (f_equal be_val) in H. rewrite !be_val_enc in H; auto.
+Qed.
+
+Lemma counter_buf_plus_2_32 c : 0 <= c -> c + 2 ^ 32 < 2 ^ 64 -> counter_buf c <> counter_buf (c + 2 ^ 32).
+Proof. intros H1 H2 H. apply counter_buf_inj in H; lia. Qed.
+
+Lemma counter_buf_length c : length (counter_buf c) = 32%nat.
+Proof. unfold counter_buf. rewrite app_length, be_enc_length, zeros_length. reflexivity. Qed.
+
+Section C12.
+Variable P : Params.
+Let n := cn P.
+
+(* nonce_gen_counter is nonce_gen_internal on buf = be64(counter) || 0^24, secret key and public key taken
+   from the keypair; on success the two scalars are the nonce function of exactly that buffer *)
+Lemma nonce_gen_internal_k wp inp sk pko msg c ex ok k1 k2 pk :
+  nonce_gen_internal P wp inp sk pko msg c ex = NgDone ok k1 k2 pk ->
+  exists aggpk, (k1, k2) = nonce_fn_musig P inp msg sk (ser33 pk) aggpk ex /\
+    (c = None -> aggpk = None) /\
+    (forall cb, c = Some cb -> exists ci, cache_load P cb = Some ci /\ aggpk = Some (fe_to_b32 (px (c_pk ci)))).
+Proof.
+  unfold nonce_gen_internal. destruct wp; simpl; [|discriminate]. destruct pko as [o|]; [|discriminate].
+  destruct c as [cb|].
+  - destruct (cache_load P cb) as [ci|] eqn:E; [|discriminate].
+    destruct (pk_load o) as [pk'|]; [|discriminate].
+    destruct (nonce_fn_musig P inp msg sk (ser33 pk') (Some (fe_to_b32 (px (c_pk ci)))) ex) as [a b] eqn:F.
+    intros H. assert (pk' = pk /\ a = k1 /\ b = k2) as [-> [-> ->]] by (repeat split; congruence).
+    eexists; split; [symmetry; exact F|]. split; [discriminate|]. intros cb0 H0. inversion H0; subst. eauto.
+  - destruct (pk_load o) as [pk'|]; [|discriminate].
+    destruct (nonce_fn_musig P inp msg sk (ser33 pk') None ex) as [a b] eqn:F.
+    intros H. assert (pk' = pk /\ a = k1 /\ b = k2) as [-> [-> ->]] by (repeat split; congruence).
+    eexists; split; [symmetry; exact F|]. split; auto. discriminate.
+Qed.
+
+Lemma nonce_gen_counter_layout before wp cnt kpb msg c ex :
+  ng_res_of (nonce_gen_counter_sec P true before wp cnt (Some kpb) msg c ex) =
+  Some (nonce_gen_internal P wp (be_enc 8 cnt ++ zeros 24) (Some (firstn 32 kpb)) (Some (skipn 32 kpb)) msg c ex).
+Proof. reflexivity. Qed.
+
+(* ---- parsers *)
+Lemma partial_sig_parse_exact in32 :
+  musig_partial_sig_parse P in32 =
+  if n <=? be_val in32 then [AInt 0; ABytes (zeros 36)]
+  else [AInt 1; ABytes (magic_psig ++ be_enc 32 (be_val in32 mod n))].
+Proof. unfold musig_partial_sig_parse, sc_of_b32. fold n. destruct (n <=? be_val in32); reflexivity. Qed.
+
+Lemma pubnonce_parse_rejects in66 :
+  eckey_pubkey_parse P (firstn 33 in66) = None \/ eckey_pubkey_parse P (skipn 33 in66) = None ->
+  musig_pubnonce_parse P in66 = [AInt 0; ABytes (zeros 132)].
+Proof.
+  unfold musig_pubnonce_parse. intros [H|H]; rewrite H; auto.
+  destruct (eckey_pubkey_parse P (firstn 33 in66)); auto.
+Qed.
+
+Lemma pubnonce_parse_accepts in66 R1 R2 :
+  eckey_pubkey_parse P (firstn 33 in66) = Some R1 -> eckey_pubkey_parse P (skipn 33 in66) = Some R2 ->
+  musig_pubnonce_parse P in66 = [AInt 1; ABytes (magic_pubnonce ++ pk_obj R1 ++ pk_obj R2)].
+Proof. unfold musig_pubnonce_parse. intros -> ->. reflexivity. Qed.
+
+(* the infinity encoding (33 zero bytes) is rejected in a public nonce and accepted in an aggregate nonce *)
+Lemma eckey_parse_zeros33 : eckey_pubkey_parse P (zeros 33) = None.
+Proof. reflexivity. Qed.
+Lemma ge_parse_ext_zeros33 : ge_parse_ext P (zeros 33) = Some None.
+Proof. reflexivity. Qed.
+
+Lemma aggnonce_parse_exact in66 :
+  musig_aggnonce_parse P in66 =
+  match ge_parse_ext P (firstn 33 in66), ge_parse_ext P (skipn 33 in66) with
+  | Some R1, Some R2 => [AInt 1; ABytes (magic_aggnonce ++ pk_obj R1 ++ pk_obj R2)]
+  | _, _ => [AInt 0; ABytes (zeros 132)]
+  end.
+Proof. reflexivity. Qed.
+
+Lemma partial_sig_serialize_rejects o :
+  bytes_eqb (firstn 4 o) magic_psig = false -> musig_partial_sig_serialize o = [AInt 0; ABytes (zeros 32); AIll 1].
+Proof. unfold musig_partial_sig_serialize. intros ->. reflexivity. Qed.
+
+(* ---- adapt / extract are inverse at the scalar level (pure arithmetic mod n, n > 0) *)
+Lemma mod_opp_opp a : 0 < n -> (- ((- a) mod n)) mod n = a mod n.
+Proof.
+  intros Hn. rewrite <- (Z.sub_0_l ((- a) mod n)). rewrite Zminus_mod_idemp_r. f_equal. lia.
+Qed.
+
+Lemma adapt_extract_scalar s t par : 0 < n -> 0 <= t < n -> (par = 0 \/ par = 1) ->
+  extract_scalar P (adapt_scalar P s t par) s par = t.
+Proof.
+  intros Hn Ht Hp. unfold extract_scalar, adapt_scalar, sc_add, sc_neg, madd, mneg. fold n.
+  destruct Hp as [-> | ->]; simpl.
+  - (* parity 0: s' = s + t; t = -(-(s') + s) *)
+    rewrite Zplus_mod_idemp_l.
+    rewrite <- (Z.sub_0_l ((- ((s + t) mod n) + s) mod n)). rewrite Zminus_mod_idemp_r.
+    replace (0 - (- ((s + t) mod n) + s)) with ((s + t) mod n - s) by lia.
+    rewrite Zminus_mod_idemp_l. replace (s + t - s) with t by lia. apply Z.mod_small; auto.
+  - rewrite Zplus_mod_idemp_l.
+    replace (- ((s + (- t) mod n) mod n) + s) with (s - (s + (- t) mod n) mod n) by lia.
+    rewrite Zminus_mod_idemp_r. replace (s - (s + (- t) mod n)) with (- ((- t) mod n)) by lia.
+    rewrite mod_opp_opp by auto. apply Z.mod_small; auto.
+Qed.
+
+Lemma extract_adapt_scalar s' s par : 0 < n -> 0 <= s' < n -> (par = 0 \/ par = 1) ->
+  adapt_scalar P s (extract_scalar P s' s par) par = s'.
+Proof.
+  intros Hn Hs Hp. unfold extract_scalar, adapt_scalar, sc_add, sc_neg, madd, mneg. fold n.
+  assert (K : (s + (- (((- s') mod n + s) mod n)) mod n) mod n = s').
+  { rewrite Zplus_mod_idemp_r. replace (s + - (((- s') mod n + s) mod n)) with (s - ((- s') mod n + s) mod n) by lia.
+    rewrite Zminus_mod_idemp_r. replace (s - ((- s') mod n + s)) with (- ((- s') mod n)) by lia.
+    rewrite mod_opp_opp by auto. apply Z.mod_small; auto. }
+  destruct Hp as [-> | ->]; simpl; auto.
+Qed.
+
+Lemma sc_of_b32_enc x : 0 <= x < n -> n <= 2 ^ 256 -> sc_of_b32 P (be_enc 32 x) = (x, false).
+Proof.
+  intros Hx Hn. unfold sc_of_b32. fold n. rewrite be_val_enc by (rewrite pow256_32; lia).
+  rewrite Z.mod_small by lia. f_equal. apply Z.leb_gt. lia.
+Qed.
+
+(* API level: adapt a pre-signature (rx || s) with t, then extract from (adapted, pre-signature): t comes back *)
+Lemma adapt_extract_api rx s t par :
+  0 <= s < n -> 0 <= t < n -> n <= 2 ^ 256 -> length rx = 32%nat -> (par = 0 \/ par = 1) ->
+  let s' := adapt_scalar P s t par in
+  musig_adapt P (Some (rx ++ be_enc 32 s)) (Some (be_enc 32 t)) par = [AInt 1; ABytes (rx ++ be_enc 32 s')] /\
+  musig_extract_adaptor P (Some (rx ++ be_enc 32 s')) (Some (rx ++ be_enc 32 s)) par = [AInt 1; ABytes (be_enc 32 t)].
+Proof.
+  intros Hs Ht Hn Hl Hp. cbv zeta.
+  assert (Hs' : 0 <= adapt_scalar P s t par < n).
+  { unfold adapt_scalar, sc_add, madd. fold n. apply Z.mod_pos_bound. lia. }
+  unfold musig_adapt, musig_extract_adaptor.
+  assert (Hpar : negb ((par =? 0) || (par =? 1)) = false) by (destruct Hp as [-> | ->]; reflexivity).
+  rewrite Hpar.
+  rewrite (skipn_exact rx (be_enc 32 s) 32 Hl), (skipn_exact rx (be_enc 32 (adapt_scalar P s t par)) 32 Hl),
+          (firstn_exact rx (be_enc 32 s) 32 Hl).
+  rewrite (sc_of_b32_enc s), (sc_of_b32_enc t), (sc_of_b32_enc (adapt_scalar P s t par)) by auto.
+  simpl. split; auto.
+  unfold sc_to_b32. rewrite adapt_extract_scalar by (auto; lia). reflexivity.
+Qed.
+
+(* ---- the nonce hash input is the BIP-327 NonceGen layout *)
+Lemma xor_bytes_comm a b : xor_bytes a b = xor_bytes b a.
+Proof.
+  unfold xor_bytes. revert b. induction a as [|x a IH]; intros [|y b]; simpl; auto.
+  rewrite Z.lxor_comm. f_equal. apply IH.
+Qed.
+
+Local Transparent nonce_fn_musig.
+Lemma nonce_fn_eq_spec rand' sk pk33 aggpk msg extra :
+  length pk33 = 33%nat ->
+  (forall a, aggpk = Some a -> length a = 32%nat) ->
+  (forall m, msg = Some m -> length m = 32%nat) ->
+  (forall e, extra = Some e -> length e = 32%nat) ->
+  nonce_fn_musig P rand' msg sk pk33 aggpk extra =
+  (Bip327.nonce_gen_k P rand' sk pk33 aggpk msg extra 1, Bip327.nonce_gen_k P rand' sk pk33 aggpk msg extra 2).
+Proof.
+  intros Lp La Lm Le.
+  assert (R : nonce_rand rand' sk = match sk with Some s => xor_bytes s (tagged_hash Bip327.bip_tag_aux rand') | None => rand' end).
+  { unfold nonce_rand. destruct sk; auto. apply xor_bytes_comm. }
+  assert (I : forall i, (i = 0 \/ i = 1) ->
+     nonce_hash_input (nonce_rand rand' sk) pk33 aggpk msg extra i =
+     match sk with Some s => xor_bytes s (tagged_hash Bip327.bip_tag_aux rand') | None => rand' end
+       ++ Bip327.bytes_k 1 (Bip327.blen pk33) ++ pk33 ++ Bip327.opt_len_prefixed 1 aggpk
+       ++ match msg with None => Bip327.bytes_k 1 0 | Some mm => Bip327.bytes_k 1 1 ++ Bip327.bytes_k 8 (Bip327.blen mm) ++ mm end
+       ++ Bip327.opt_len_prefixed 4 extra ++ Bip327.bytes_k 1 (i + 1 - 1)).
+  { intros i Hi. rewrite R. unfold nonce_hash_input, nonce_helper, Bip327.opt_len_prefixed, Bip327.bytes_k, Bip327.blen.
+    rewrite Lp. f_equal.
+    destruct aggpk as [a|]; [rewrite (La a eq_refl)|];
+    (destruct msg as [m|]; [rewrite (Lm m eq_refl)|]);
+    (destruct extra as [e|]; [rewrite (Le e eq_refl)|]);
+    destruct Hi as [-> | ->]; reflexivity. }
+  unfold nonce_fn_musig, Bip327.nonce_gen_k, sc_b, sc_of_b32, Bip327.int_of. cbn [fst].
+  rewrite (I 0), (I 1) by auto. reflexivity.
+Qed.
+Local Opaque nonce_fn_musig.
+
+(* ---- key aggregation equals BIP-327 KeyAgg *)
+Definition valid_pt (Q : point) : Prop :=
+  match Q with Some (x, y) => 0 < x < 2 ^ 256 /\ 0 <= y < 2 ^ 256 | None => False end.
+
+Lemma bytes_eqb_eq a b : bytes_eqb a b = true <-> a = b.
+Proof.
+  revert b. induction a as [|x a IH]; intros [|y b]; simpl; split; intros H; try discriminate; auto.
+  - apply andb_true_iff in H. destruct H as [H1 H2]. apply Z.eqb_eq in H1. apply IH in H2. congruence.
+  - inversion H; subst. rewrite Z.eqb_refl. apply IH. reflexivity.
+Qed.
+Lemma bytes_eqb_neq a b : a <> b -> bytes_eqb a b = false.
+Proof. intros H. destruct (bytes_eqb a b) eqn:E; auto. apply bytes_eqb_eq in E. contradiction. Qed.
+
+Lemma pk_load_obj Q : valid_pt Q -> pk_load (pk_obj Q) = Some Q.
+Proof.
+  destruct Q as [[x y]|]; [|simpl; tauto]. unfold valid_pt, pk_obj. intros [Hx Hy]. unfold pk_load, fe_to_b32.
+  rewrite (firstn_exact (be_enc 32 x) (be_enc 32 y) 32 (be_enc_length 32 x)).
+  rewrite (skipn_exact (be_enc 32 x) (be_enc 32 y) 32 (be_enc_length 32 x)).
+  rewrite !be_val_enc by (rewrite pow256_32; lia).
+  destruct (x =? 0) eqn:E; [apply Z.eqb_eq in E; lia|reflexivity].
+Qed.
+
+Lemma pk_obj_inj Q R : valid_pt Q -> valid_pt R -> pk_obj Q = pk_obj R -> Q = R.
+Proof.
+  intros HQ HR H. apply pk_load_obj in HQ. apply pk_load_obj in HR. rewrite H in HQ. congruence.
+Qed.
+
+Lemma ser33_cbytes Q : Q <> None -> ser33 Q = Bip327.cbytes Q.
+Proof.
+  destruct Q as [[x y]|]; [|congruence]. intros _. unfold ser33, Bip327.cbytes, Bip327.has_even_y, Bip327.xbytes, Bip327.bytes_k, fe_to_b32.
+  simpl. destruct (Z.odd y); reflexivity.
+Qed.
+
+Lemma valid_not_None Q : valid_pt Q -> Q <> None.
+Proof. destruct Q; simpl; [discriminate|tauto]. Qed.
+
+Fixpoint second_pt (first : point) (rest : list point) : point :=
+  match rest with
+  | [] => None
+  | Q :: r => if point_eqb first Q then second_pt first r else Q
+  end.
+
+Lemma second_pt_In F rest : second_pt F rest = None \/ In (second_pt F rest) rest.
+Proof. induction rest as [|Q r IH]; simpl; auto. destruct (point_eqb F Q); [destruct IH; auto|auto]. Qed.
+
+Lemma find_second_pts F rest : valid_pt F -> Forall valid_pt rest ->
+  find_second (pk_obj F) (map pk_obj rest) = inl (second_pt F rest).
+Proof.
+  intros HF HR. induction HR as [|Q r HQ HR IH]; simpl; auto.
+  destruct (point_eqb F Q) eqn:E.
+  - apply point_eqb_true in E. subst Q. rewrite (proj2 (bytes_eqb_eq _ _) eq_refl). apply IH.
+  - rewrite bytes_eqb_neq. { rewrite pk_load_obj by auto. reflexivity. }
+    intros H. apply pk_obj_inj in H; auto. subst Q. rewrite point_eqb_refl in E. discriminate.
+Qed.
+
+Lemma load_all_pts pts : Forall valid_pt pts -> load_all (map pk_obj pts) = Some pts.
+Proof. intros H. induction H as [|Q r HQ HR IH]; simpl; auto. rewrite pk_load_obj by auto. rewrite IH. reflexivity. Qed.
+
+Lemma pks_hash_spec pts : Forall valid_pt pts -> pks_hash_of pts = Bip327.hash_keys (map (Bip327.cbytes) pts).
+Proof.
+  intros H. unfold pks_hash_of, Bip327.hash_keys. f_equal.
+  induction H as [|Q r HQ HR IH]; simpl; auto. rewrite IH. rewrite ser33_cbytes by (apply valid_not_None; auto). reflexivity.
+Qed.
+
+Definition cbytes_inj_on (pts : list point) : Prop :=
+  forall A B, In A pts -> In B pts -> Bip327.cbytes A = Bip327.cbytes B -> A = B.
+
+Lemma second_key_spec F rest : cbytes_inj_on (F :: rest) ->
+  Bip327.get_second_key (map Bip327.cbytes (F :: rest)) = Bip327.cbytes_ext (second_pt F rest) /\
+  (second_pt F rest <> None -> second_pt F rest <> F).
+Proof.
+  intros Inj. simpl. rewrite (proj2 (bytes_eqb_eq _ _) eq_refl). simpl.
+  assert (Sub : forall Q, In Q rest -> In Q (F :: rest)) by (intros; right; auto).
+  revert Sub. generalize rest at 1 3 4 5 as r. induction r as [|Q r IH]; intros Sub; simpl.
+  - split; [reflexivity|congruence].
+  - destruct (point_eqb F Q) eqn:E.
+    + apply point_eqb_true in E. subst Q. rewrite (proj2 (bytes_eqb_eq _ _) eq_refl). simpl. apply IH. intros; apply Sub; right; auto.
+    + rewrite bytes_eqb_neq.
+      * simpl. split.
+        { destruct Q as [[x y]|]; [reflexivity|]. exfalso.
+          (* Q = None cannot be distinguished... but cbytes None is a fixed string: handled by injectivity below *)
+          assert (F = None) by (destruct F as [[a b]|]; [simpl in E; discriminate|reflexivity]). subst F. discriminate. }
+        { intros _ H. subst Q. rewrite point_eqb_refl in E. discriminate. }
+      * intros H. apply Inj in H; [|apply Sub; left; auto|left; auto]. subst Q. rewrite point_eqb_refl in E. discriminate.
+Qed.
+
+Local Transparent keyaggcoef.
+Lemma keyaggcoef_spec pts Q second :
+  Forall valid_pt pts -> cbytes_inj_on pts -> In Q pts -> (second = None \/ In second pts) ->
+  keyaggcoef P (pks_hash_of pts) Q second =
+  Bip327.key_agg_coeff_internal P (map Bip327.cbytes pts) (Bip327.cbytes Q) (Bip327.cbytes_ext second).
+Proof.
+  intros V Inj HQ HS. unfold keyaggcoef, Bip327.key_agg_coeff_internal.
+  assert (VQ : valid_pt Q) by (eapply (proj1 (Forall_forall _ _) V); eauto).
+  rewrite <- pks_hash_spec by auto. rewrite <- ser33_cbytes by (apply valid_not_None; auto).
+  destruct second as [s|]; simpl.
+  - destruct HS as [HS|HS]; [discriminate|].
+    destruct (point_eqb Q (Some s)) eqn:E.
+    + apply point_eqb_true in E. subst Q. rewrite ser33_cbytes by discriminate. rewrite (proj2 (bytes_eqb_eq _ _) eq_refl). reflexivity.
+    + rewrite bytes_eqb_neq; [reflexivity|]. intros H. rewrite ser33_cbytes in H by (apply valid_not_None; auto).
+      apply Inj in H; auto. subst Q. rewrite point_eqb_refl in E. discriminate.
+  - rewrite bytes_eqb_neq; [reflexivity|]. destruct Q as [[x y]|]; [|simpl in VQ; tauto].
+    unfold ser33. destruct (Z.odd y); discriminate.
+Qed.
+Lemma keyaggcoef_second_one h x y : keyaggcoef P h (Some (x, y)) (Some (x, y)) = 1.
+Proof. unfold keyaggcoef. simpl. rewrite !Z.eqb_refl. reflexivity. Qed.
+Local Opaque keyaggcoef.
+
+Theorem keyagg_eq_spec_lemma F rest wa wc :
+  let pts := F :: rest in
+  Forall valid_pt pts -> cbytes_inj_on pts ->
+  musig_pubkey_agg P wa wc (Some (map pk_obj pts)) =
+  match Bip327.key_agg P pts with
+  | Some ctx => [AInt 1; out_opt wa (pk_obj (fst (even_y P (Bip327.ctx_Q ctx))));
+                 out_opt wc (cache_save (mkCache (Bip327.ctx_Q ctx) (second_pt F rest)
+                                                 (Bip327.hash_keys (map Bip327.cbytes pts)) 0 0))]
+  | None => abstain
+  end.
+Proof.
+  intros pts V Inj. unfold musig_pubkey_agg. subst pts. simpl map.
+  inversion V as [|? ? VF VR]; subst.
+  rewrite find_second_pts by auto.
+  change (pk_obj F :: map pk_obj rest) with (map pk_obj (F :: rest)). rewrite load_all_pts by auto.
+  unfold keyagg_point, Bip327.key_agg, psum.
+  destruct (second_key_spec F rest Inj) as [SK _].
+  assert (M : map (fun Q => Curve.pmul P (keyaggcoef P (pks_hash_of (F :: rest)) Q (second_pt F rest)) Q) (F :: rest) =
+              map (fun Pi => Curve.pmul P (Bip327.key_agg_coeff_internal P (map Bip327.cbytes (F :: rest)) (Bip327.cbytes Pi)
+                                              (Bip327.get_second_key (map Bip327.cbytes (F :: rest)))) Pi) (F :: rest)).
+  { apply map_ext_in. intros Q HQ. rewrite SK. f_equal. apply keyaggcoef_spec; auto.
+    destruct (second_pt_In F rest); auto. right. right. auto. }
+  rewrite M. rewrite pks_hash_spec by auto.
+  destruct (fold_left (Curve.padd P) _ None); reflexivity.
+Qed.
+
+(* ---- tweaking equals BIP-327 ApplyTweak, for every tweak sequence *)
+Definition cache_rel (ci : cache_i) (ctx : Bip327.keyagg_ctx) : Prop :=
+  c_pk ci = Bip327.ctx_Q ctx /\
+  ((c_parity ci = 0 /\ Bip327.ctx_gacc ctx = 1) \/ (c_parity ci = 1 /\ Bip327.ctx_gacc ctx = n - 1)) /\
+  c_tweak ci = Bip327.ctx_tacc ctx /\ 0 <= Bip327.ctx_tacc ctx < n.
+
+Lemma m1_mod : 1 < n -> (-1) mod n = n - 1.
+Proof. intros H. symmetry. apply Z.mod_unique with (q := -1); lia. Qed.
+
+Lemma tweak_step_spec xonly ci ctx t32 :
+  2 < n -> bytes_okP t32 -> cache_rel ci ctx ->
+  match tweak_step P xonly ci t32, Bip327.apply_tweak P ctx t32 xonly with
+  | Some ci', Some ctx' => cache_rel ci' ctx' /\ c_second ci' = c_second ci /\ c_hash ci' = c_hash ci
+  | None, None => True
+  | _, _ => False
+  end.
+Proof.
+  intros Hn Hb [RQ [RG [RT RB]]].
+  unfold tweak_step, Bip327.apply_tweak, sc_of_b32, Bip327.int_of. fold n.
+  pose proof (be_val_bound t32 Hb) as [Hv _].
+  destruct (n <=? be_val t32) eqn:Ov; auto.
+  apply Z.leb_gt in Ov. rewrite (Z.mod_small (be_val t32) n) by lia.
+  unfold Bip327.has_even_y. rewrite <- RQ. rewrite negb_involutive.
+  destruct (xonly && Z.odd (py (c_pk ci))) eqn:Flip.
+  - rewrite m1_mod by lia. unfold Bip327.gmul.
+    replace (n - 1 =? 1) with false by (symmetry; apply Z.eqb_neq; lia).
+    destruct (Curve.padd P (Curve.pneg P (c_pk ci)) (Curve.pmul P (be_val t32) (Curve.G P))) eqn:E; auto.
+    simpl. split; [|auto]. unfold cache_rel. simpl. split; auto. split; [|split].
+    + destruct RG as [[-> ->] | [-> ->]]; [right|left]; split; auto.
+      * rewrite Z.mul_1_r. apply Z.mod_small. lia.
+      * replace ((n - 1) * (n - 1)) with (1 + (n - 2) * n) by ring. rewrite Z.mod_add by lia. apply Z.mod_small. lia.
+    + unfold sc_add, sc_neg, madd, mneg. fold n. rewrite RT. rewrite Zplus_mod_idemp_l.
+      replace (be_val t32 + (n - 1) * Bip327.ctx_tacc ctx) with (- Bip327.ctx_tacc ctx + be_val t32 + Bip327.ctx_tacc ctx * n) by ring.
+      rewrite Z.mod_add by lia. reflexivity.
+    + apply Z.mod_pos_bound. lia.
+  - unfold Bip327.gmul. simpl (1 =? 1).
+    destruct (Curve.padd P (c_pk ci) (Curve.pmul P (be_val t32) (Curve.G P))) eqn:E; auto.
+    simpl. split; [|auto]. unfold cache_rel. simpl. split; auto. split; [|split].
+    + destruct RG as [[-> ->] | [-> ->]]; [left|right]; split; auto.
+      * apply Z.mod_small. lia.
+      * rewrite Z.mul_1_l. apply Z.mod_small. lia.
+    + unfold sc_add, madd. fold n. rewrite RT. f_equal. ring.
+    + apply Z.mod_pos_bound. lia.
+Qed.
+
+Fixpoint tweak_steps (ci : cache_i) (tw : list (bytes * bool)) : option cache_i :=
+  match tw with
+  | [] => Some ci
+  | (t, x) :: r => match tweak_step P x ci t with Some c => tweak_steps c r | None => None end
+  end.
+
+Lemma tweak_steps_spec tw : forall ci ctx,
+  2 < n -> Forall (fun tx => bytes_okP (fst tx)) tw -> cache_rel ci ctx ->
+  match tweak_steps ci tw, Bip327.apply_tweaks P ctx tw with
+  | Some ci', Some ctx' => cache_rel ci' ctx' /\ c_second ci' = c_second ci /\ c_hash ci' = c_hash ci
+  | None, None => True
+  | _, _ => False
+  end.
+Proof.
+  induction tw as [|[t x] r IH]; intros ci ctx Hn Hb R; simpl; auto.
+  inversion Hb; subst. simpl in *.
+  pose proof (tweak_step_spec x ci ctx t Hn H1 R) as S.
+  destruct (tweak_step P x ci t) as [ci1|], (Bip327.apply_tweak P ctx t x) as [ctx1|]; auto; try contradiction.
+  destruct S as [R1 [S2 S3]].
+  specialize (IH ci1 ctx1 Hn H2 R1).
+  destruct (tweak_steps ci1 r), (Bip327.apply_tweaks P ctx1 r); auto.
+  destruct IH as [A [B C]]. repeat split; auto; congruence.
+Qed.
+
+(* the API function is load -> tweak_step -> save *)
+Lemma musig_pubkey_tweak_add_unfold xonly wo c t ci :
+  cache_load P c = Some ci ->
+  musig_pubkey_tweak_add P xonly wo (Some c) (Some t) =
+  match tweak_step P xonly ci t with
+  | None => [AInt 0; out_opt wo pk_obj_zero; ABytes c]
+  | Some ci' => [AInt 1; out_opt wo (pk_obj (c_pk ci')); ABytes (cache_save ci')]
+  end.
+Proof. intros H. unfold musig_pubkey_tweak_add. rewrite H. reflexivity. Qed.
+
+Lemma cache_rel_init Q second h : 0 < n -> cache_rel (mkCache Q second h 0 0) (Bip327.mkCtx Q 1 0).
+Proof. intros H. unfold cache_rel. simpl. repeat split; auto; lia. Qed.
+End C12.
+
+(* ================================================================== statements exported to Properties_C13.v *)
+Section C13_statements.
+Variable P : Params.
+
+(* after ANY partial_sign step on an existing nonce object - success, or failure for whatever reason,
+   including every ARG_CHECK that follows the load - the object is all-zero *)
+Lemma partial_sign_always_wipes_stmt : forall s k want_sig keypair cache session,
+  (k < length (slots s))%nat ->
+  nth_error (slots (fst (step P s (OSign (Some k) want_sig keypair cache session)))) k = Some (zeros 132).
+Proof. intros. apply step_sign_wipes. auto. Qed.
+
+(* the API-level function: the secnonce output is zeros whatever the other arguments *)
+Lemma partial_sign_api_wipes_stmt : forall sec want_sig keypair cache session,
+  snd (partial_sign P (Some sec) want_sig keypair cache session) = Some (zeros 132).
+Proof.
+  intros. unfold partial_sign. destruct (partial_sign_core P sec want_sig keypair cache session) as [[r i] s]. reflexivity.
+Qed.
+
+Lemma zero_nonce_never_signs_stmt : forall s k want_sig keypair cache session,
+  nth_error (slots s) k = Some (zeros 132) ->
+  let r := step P s (OSign (Some k) want_sig keypair cache session) in
+  o_ret (snd r) = 0 /\ o_ill (snd r) = 1 /\ siglog (fst r) = siglog s /\
+  o_sig (snd r) = (if want_sig then Some (zeros 36) else None).
+Proof. intros. eapply step_sign_unloadable; eauto. Qed.
+
+(* once a partial_sign step has touched object k, no later partial_sign on k signs, until k is refilled
+   by a nonce generation (or overwritten by the caller) *)
+Lemma used_nonce_never_signs_stmt : forall s k w1 kp1 c1 se1 ops w2 kp2 c2 se2,
+  (k < length (slots s))%nat ->
+  forallb (fun o => negb (refills k o)) ops = true ->
+  let s1 := fst (step P s (OSign (Some k) w1 kp1 c1 se1)) in
+  let s2 := final P s1 ops in
+  let r := step P s2 (OSign (Some k) w2 kp2 c2 se2) in
+  o_ret (snd r) = 0 /\ siglog (fst r) = siglog s2 /\ o_sig (snd r) = (if w2 then Some (zeros 36) else None).
+Proof.
+  intros s k w1 kp1 c1 se1 ops w2 kp2 c2 se2 Hk Hops. cbv zeta.
+  pose proof (step_sign_wipes P s k w1 kp1 c1 se1 Hk) as Z1.
+  pose proof (final_keeps_zero P ops _ k Hops Z1) as Z2.
+  destruct (step_sign_unloadable P _ k _ w2 kp2 c2 se2 Z2 (secnonce_load_zeros P)) as [A [B [C D]]].
+  auto.
+Qed.
+
+(* binding: the keypair must carry exactly the public key (x AND y) the nonce was generated for *)
+Lemma foreign_key_never_signs_stmt : forall s k sec k1 k2 pk want_sig kp d kpk cache session,
+  nth_error (slots s) k = Some sec ->
+  secnonce_load P sec = Some (k1, k2, pk) -> keypair_load P kp = Some (d, kpk) -> pk <> kpk ->
+  let r := step P s (OSign (Some k) want_sig (Some kp) cache session) in
+  o_ret (snd r) = 0 /\ o_ill (snd r) = 1 /\ siglog (fst r) = siglog s /\
+  o_sig (snd r) = (if want_sig then Some (zeros 36) else None) /\
+  nth_error (slots (fst r)) k = Some (zeros 132).
+Proof.
+  intros s k sec k1 k2 pk w kp d kpk c se E L K N. cbv zeta.
+  pose proof (step_sign_wipes P s k w (Some kp) c se (nth_error_lt _ _ _ E)) as W.
+  unfold step, get_slot in *. rewrite E in *.
+  rewrite (core_foreign_key P sec k1 k2 pk w kp d kpk c se L K N) in *. simpl in *. auto.
+Qed.
+
+Lemma negated_key_is_foreign : forall x y y' : Z, y <> y' -> Some (x, y) <> Some (x, y').
+Proof. intros x y y' H E. inversion E. contradiction. Qed.
+
+(* history invariant: over ANY operation list from ANY initial pool, no generation event (nonce_gen,
+   nonce_gen_counter, or the caller overwriting the object) is logged with two signatures *)
+Lemma at_most_one_signature_stmt : forall slots0 rands0 ops,
+  NoDup (map fst (siglog (final P (init_state slots0 rands0) ops))).
+Proof. intros. apply (wf_log_nodup P). apply wf_final. apply wf_init. Qed.
+
+Lemma at_most_one_signature_fold : forall slots0 rands0 ops,
+  NoDup (map fst (siglog (fold_left (fun st o => fst (step P st o)) ops (init_state slots0 rands0)))).
+Proof. exact at_most_one_signature_stmt. Qed.
+
+(* and the log is faithful: a partial_sign step returns 1 iff it appends exactly one entry, tagged with
+   the identifier of the object's current content, whose signature is the one written to the output *)
+Lemma signature_is_logged_stmt : forall s k sec want_sig keypair cache session,
+  nth_error (slots s) k = Some sec ->
+  let r := step P s (OSign (Some k) want_sig keypair cache session) in
+  (o_ret (snd r) = 1 ->
+     exists v, siglog (fst r) = (slot_id s k, v) :: siglog s /\ o_sig (snd r) = Some (psig_save v)) /\
+  (o_ret (snd r) <> 1 -> siglog (fst r) = siglog s /\ (o_sig (snd r) = None \/ o_sig (snd r) = Some (zeros 36))).
+Proof. intros. apply step_sign_logged. auto. Qed.
+
+(* only partial_sign steps extend the log; generation events get fresh identifiers *)
+Lemma only_sign_logs_stmt : forall s o,
+  match o with OSign _ _ _ _ _ => True | _ => siglog (fst (step P s o)) = siglog s end.
+Proof.
+  intros s o. destruct o; auto; simpl.
+  - destruct slot as [k|]; simpl; auto. destruct (nth_error (slots s) k); auto.
+  - destruct slot as [k|]; simpl; auto. destruct (nth_error (slots s) k); auto.
+  - destruct (nth_error (slots s) slot); auto.
+Qed.
+
+Lemma nonce_gen_contract_stmt : forall s k want_pubnonce ri seckey pubkey msg32 cache extra32,
+  (k < length (slots s))%nat ->
+  let r := step P s (OGen (Some k) want_pubnonce ri seckey pubkey msg32 cache extra32) in
+  (* every failure leaves the secret nonce zeroed *)
+  (o_ret (snd r) <> 1 -> nth_error (slots (fst r)) k = Some (zeros 132)) /\
+  (* all-zero session randomness is rejected, without callback *)
+  (forall rb, get_rand s ri = Some rb -> is_zero_bytes rb = true ->
+        o_ret (snd r) = 0 /\ o_ill (snd r) = 0 /\ nth_error (slots (fst r)) k = Some (zeros 132)) /\
+  (* success wipes the caller's randomness buffer *)
+  (o_ret (snd r) = 1 -> forall i, ri = Some i -> nth_error (rands (fst r)) i = Some (zeros 32)) /\
+  (* success binds the nonce to the supplied public key *)
+  (o_ret (snd r) = 1 -> exists k1 k2 pk obj, pubkey = Some obj /\ pk_load obj = Some pk /\
+        nth_error (slots (fst r)) k = Some (secnonce_save k1 k2 pk) /\ skipn 68 (secnonce_save k1 k2 pk) = pk_obj pk).
+Proof. intros. apply step_gen_contract. auto. Qed.
+
+Lemma stored_pubkey_is_supplied_stmt : forall o pk, length o = 64%nat -> bytes_okP o -> pk_load o = Some pk -> pk_obj pk = o.
+Proof. exact pk_obj_of_load. Qed.
+
+Lemma nonce_gen_counter_contract_stmt : forall before want_pubnonce cnt keypair msg32 cache extra32,
+  let o := nonce_gen_counter_sec P true before want_pubnonce cnt keypair msg32 cache extra32 in
+  (ng_r o = false -> ng_sec o = zeros 132) /\
+  (ng_r o = true -> exists k1 k2 pk kpb, keypair = Some kpb /\ pk_load (skipn 32 kpb) = Some pk /\
+                    seckey_of_b32 P (firstn 32 kpb) <> None /\
+                    ng_sec o = secnonce_save k1 k2 pk /\ skipn 68 (ng_sec o) = pk_obj pk).
+Proof. intros. apply nonce_gen_counter_sec_contract. Qed.
+End C13_statements.
